@@ -139,7 +139,10 @@ STRUCTURAL = CYCLES + _clashes() + _long_lines() + _huge_counts() + _at_signs() 
 ]
 
 DEEP = [("deep-parentheses", ".dw " + "(" * 20000 + "1" + ")" * 20000), ("deep-unary", ".dw " + "-" * 100000 + "1"),
-        ("deep-function", ".dw " + "low(" * 20000 + "1" + ")" * 20000)]
+        ("deep-function", ".dw " + "low(" * 20000 + "1" + ")" * 20000),
+        # a macro that calls itself with an argument that mentions its own argument twice: the text doubles at every one of the
+        # 64 levels the nesting limit allows
+        ("macro-argument-doubling", ".macro m\n m @0+@0\n.endm\n m 1")]
 
 
 REPEATED = {
@@ -283,7 +286,7 @@ def run(res):
                 "name kind; %d structural "
                 "programs (cyclic .equ, recursive and mutually recursive macros, unbalanced directives, address-space and allocation "
                 "extremes, 60 KB tokens, NUL/BOM/non-ASCII); the hostile-line corpus; random programs with 1-3 token/line mutations; "
-                "three deep-nesting probes; %d lines with unbalanced parentheses (refused within 3 s).  Each case in its own worker process with a watchdog (10 s) and a 3 GB address-space limit" %
+                "three deep-nesting probes and a self-calling macro that doubles its argument; %d lines with unbalanced parentheses (refused within 3 s).  Each case in its own worker process with a watchdog (10 s) and a 3 GB address-space limit" %
                 (len(OPERANDS), len(STRUCTURAL), len(unbalanced_lines())))
     res.samples = [dict(source=t[:80], outcome=obs[t][0][:40]) for t in texts[:2] + texts[-2:]]
     res.assume = ["native stack depth, wall-clock time and the allocator are outside the Coq model; they are exercised by this run only"]
